@@ -2,6 +2,7 @@ package lhsim
 
 import (
 	"fmt"
+	"os"
 	"sort"
 	"time"
 
@@ -56,6 +57,9 @@ func (c *workerCtrl) Idle() { c.state = wsIdle }
 func (c *workerCtrl) Choose(p verifhook.Pending) verifhook.Choice {
 	c.pending = p
 	c.state = wsChoosing
+	if os.Getenv("SIM_DEBUG_LOOK") != "" {
+		fmt.Fprintf(os.Stderr, "   .. worker-look n%d pending=%+v\n", c.n.idx, p)
+	}
 	x := <-c.choice
 	c.state = wsRunning
 	return x
@@ -262,9 +266,9 @@ func (t *RealTrigger) RegisterOnElection(h primitives.BlockHeight, v primitives.
 	}
 	// no preemption between the wrapper's bookkeeping and the library's own arming: the harness' knowledge of the next
 	// expiry (and of the old timer being stopped) must match the real timer
-	w.ys.noPark++
+	done := w.quiet()
 	t.inner.RegisterOnElection(h, v, cb)
-	w.ys.noPark--
+	done()
 }
 
 func (t *RealTrigger) markStopped() {
@@ -284,9 +288,9 @@ func (t *RealTrigger) Stop() {
 		t.n.w.ev("timer-stop n%d", t.n.idx)
 	}
 	t.markStopped()
-	t.n.w.ys.noPark++
+	done := t.n.w.quiet()
 	t.inner.Stop()
-	t.n.w.ys.noPark--
+	done()
 }
 
 func (w *World) syncClock() {
@@ -309,6 +313,9 @@ func (w *World) sleep(d time.Duration) {
 		return
 	}
 	w.slept += d
+	if os.Getenv("SIM_DEBUG_SLEEP") != "" {
+		fmt.Fprintf(os.Stderr, "   .. sleep %v (now %v)\n", d, w.now)
+	}
 	spinInWait.Store(true) // the fake clock moves only when everything else is durably blocked
 	time.Sleep(d)
 	spinInWait.Store(false)
@@ -319,6 +326,11 @@ func (w *World) sleep(d time.Duration) {
 const maxSimTime = 150 * 365 * 24 * time.Hour
 
 func (w *World) advanceTo(at time.Duration) {
+	for _, n := range w.nodes {
+		if n.mainParked != nil && n.realTrig != nil && n.realTrig.armed && !n.realTrig.seen && n.realTrig.expiry <= at {
+			w.forceReleaseMain(n) // its real timer expires on the way: the main loop must be at its select by then
+		}
+	}
 	w.harnessClock()
 	if at > maxSimTime {
 		w.timeUp = true
@@ -337,11 +349,34 @@ func (w *World) advanceTo(at time.Duration) {
 			if n.wakeAt > 0 && n.wakeAt < next {
 				next, wake, real = n.wakeAt, n, nil
 			}
-			if n.realTrig != nil && n.realTrig.armed && !n.realTrig.seen && n.realTrig.expiry < next {
+			if n.realTrig != nil && n.realTrig.armed && !n.realTrig.seen && n.realTrig.expiry <= next {
 				next, wake, real = n.realTrig.expiry, nil, n
 			}
 		}
+		// two things the library itself put on the clock for the same instant (a retry pause of one node and the real
+		// election timer of another, armed later with an expiry that happens to coincide): the goroutines they wake
+		// would run in an order nobody controls, and one of the two would go un-modelled. The run ends here, unjudged.
+		due := 0
+		for _, n := range w.nodes {
+			if !n.alive {
+				continue
+			}
+			if n.wakeAt > 0 && n.wakeAt == next {
+				due++
+			}
+			if n.realTrig != nil && n.realTrig.armed && !n.realTrig.seen && n.realTrig.expiry == next {
+				due++
+			}
+		}
+		if due > 1 {
+			w.timeUp = true
+			w.probe("abandoned-library-timers-coincide")
+			return
+		}
 		if real != nil {
+			if w.forceReleaseMain(real) {
+				continue // what the released loops did may have re-armed the timer: look again
+			}
 			w.onRealTimerDue(real)
 			real.realTrig.seen = true
 		}
